@@ -52,6 +52,13 @@ def noEdgeLookup : Stmt → Bool
   | .E (_ :: _) => false
   | _ => true
 
+/-- Region of the open finding C15-edge-id-dash: the traversal looks up an edge id with more than
+    two `-` (the decidable hypothesis `traversal_eq_partial` carves out is the larger `noEdgeLookup`). -/
+def dashLookup : List Stmt → Bool
+  | [] => false
+  | .E ids :: rest => ids.any (fun id => (splitDash id.toList).length > 3) || dashLookup rest
+  | _ :: rest => dashLookup rest
+
 /-- The fragment `traversal_eq_partial` covers. -/
 def plainStmt (s : Stmt) : Bool := orderFree s && noEdgeLookup s
 
